@@ -63,3 +63,21 @@ package virtualtable
 //@     ghostset ghost(0, "vtListUnreadable") = ite(result1 != nil, 1, 0)
 //@   ensures [not-present-when-the-table-list-cannot-be-read] implies(ghost(0, "vtListUnreadable") == 1, !result)
 //@ end
+
+// C19, index names: the name of an index becomes a directory below the data
+// directory (final/<index>/...), a file name (mappings) and one line of the
+// organisation's table file.  IsValidIndexName is the validator; its
+// string-level meaning ("no separator, no NUL, no line break, not . or ..,
+// not empty, at most 255 bytes") is ASSUMED as safeName, as for lookup names.
+// Nothing is written for a name that did not pass it.
+//@ func IsValidIndexName
+//@   assumed
+//@   pure
+//@   ensures implies(result, uf("safeName", bool, name))
+//@ end
+//@ func AddVirtualTable
+//@   props C19
+//@   assumecalleerequires
+//@   site call addVirtualTableHelper #1:
+//@     assert [only-a-validated-name-is-registered] tname != nil && uf("safeName", bool, *tname)
+//@ end
